@@ -46,8 +46,9 @@ func (m HandlerPrometheusMetricsMiddleware) Middleware(h message.HandlerFunc) me
 			labelKeyHandlerName: message.HandlerNameFromCtx(ctx),
 		}
 
+		panicked := true
 		defer func() {
-			if err != nil {
+			if err != nil || panicked {
 				labels[labelSuccess] = "false"
 			} else {
 				labels[labelSuccess] = "true"
@@ -55,7 +56,9 @@ func (m HandlerPrometheusMetricsMiddleware) Middleware(h message.HandlerFunc) me
 			m.handlerExecutionTimeSeconds.With(labels).Observe(time.Since(now).Seconds())
 		}()
 
-		return h(msg)
+		msgs, err = h(msg)
+		panicked = false
+		return msgs, err
 	}
 }
 
